@@ -293,6 +293,12 @@ def session_stream(ctx, stats, rng, thorough):
     m2 = list(mutators)
     rng.shuffle(m2)
     session = readers + mutators + readers + m2 + mutators[:len(mutators) // 2] + readers
+    # names in other roles: every user DIRECTLY after every definer (anything in between could re-bind the name)
+    roles = groups.get("<names in other roles>")
+    if roles:
+        for u in roles["readers"]:
+            for d in roles["mutators"]:
+                session += [d, u]
     out = C.run_impl("c11_impl.py", {"cases": [["session", session, False]], "limit": 30}, timeout=3600)[0]
     n_eval = len(session) + len(texts)
     leaked = set()
